@@ -221,6 +221,15 @@ func runC12(c *Ctx) {
 	repo := storage.NewPeerRepository(ns.Disk)
 	ctx := quietCtx()
 	repo.Load(ctx)
+	if t.Bool(1, 2) {
+		// stored peer addresses nobody listens on: the dial is refused
+		for k := 0; k < 1+int(t.Choose(3)); k++ {
+			addr := untrustedAddr(60 + k)
+			repo.Add(ctx, addr)
+			repo.UpdateScore(ctx, addr, 5+int32(t.Choose(3)))
+		}
+		c.FaultConfigured("F-dial")
+	}
 	for k := 0; k < nUntrusted+2; k++ {
 		addr := untrustedAddr(k)
 		repo.Add(ctx, addr)
